@@ -622,6 +622,51 @@ fn check_binary(ctx: &mut Ctx, w: &mut Witnesses) {
     jobs.push(Job { name: "args/no-query".into(), args: vec![], endless: false, input: vec![], close_after: None, expect: "usage", raw: None });
     jobs.push(Job { name: "args/bad-query".into(), args: sv(&["* | nosuchoperator"]), endless: false, input: vec![], close_after: None, expect: "usage", raw: None });
     jobs.push(Job { name: "args/bad-format-string".into(), args: sv(&["*", "-o", "format={unclosed"]), endless: false, input: vec![], close_after: None, expect: "usage", raw: None });
+    // format strings whose braces are fine but whose SPEC may not be valid for the text a field is
+    // printed as (`{n:.2f}`, `{k:x}`, `{n:+}`, `{k:=8}` …): whether a given spec is accepted is the
+    // formatter's business, but the outcome must be one of two — rejected at start-up with a message,
+    // or accepted and every row printed; never a crash once the first row arrives
+    {
+        let mut r = crate::rng::Rng::new(ctx.seed ^ 0xF0A3_17);
+        let nspec = if ctx.thorough() || w.only.is_some() { 160 } else { 28 };
+        for i in 0..nspec {
+            let mut spec = String::new();
+            if r.chance(40) {
+                if r.chance(40) {
+                    spec.push(*r.pick(&['_', '*', ' ', '0', 'x']));
+                }
+                spec.push(*r.pick(&['<', '>', '^', '=']));
+            }
+            if r.chance(25) {
+                spec.push(*r.pick(&['+', '-', ' ']));
+            }
+            if r.chance(15) {
+                spec.push('#');
+            }
+            if r.chance(15) {
+                spec.push('0');
+            }
+            if r.chance(50) {
+                spec.push_str(&r.range(0, 24).to_string());
+            }
+            if r.chance(12) {
+                spec.push(',');
+            }
+            if r.chance(40) {
+                spec.push('.');
+                spec.push_str(&r.range(0, 6).to_string());
+            }
+            if r.chance(60) {
+                spec.push(*r.pick(&['s', 'f', 'e', 'E', 'x', 'X', 'b', 'o', 'd', 'n', '%', 'g', 'c', '?']));
+            }
+            let field = *r.pick(&["n", "k", "n", "k", "_count"]);
+            let fmt = format!("format=[{{{}:{}}}] {{k}}", field, spec);
+            let (q, rows): (&str, usize) = *r.pick(&[("* | json", 6usize), ("* | json | count by k", 1), ("* | json | where n >= 0", 1), ("* | json | sum(n) as n by k", 1)]);
+            let args = if r.chance(25) { sv(&[q, "--format", &fmt["format=".len()..]]) } else { sv(&[q, "-o", &fmt]) };
+            let _ = rows;
+            jobs.push(Job { name: format!("args/format-spec/{}/{}", i, spec), args, endless: false, input: block.clone(), close_after: None, expect: "usage-or-clean", raw: None });
+        }
+    }
     // invalid values of -o / --format / -m (text a shell passes on unchanged: non-ASCII, empty
     // pieces, control characters, very long) and command lines that are not UTF-8
     let full = ctx.thorough() || w.only.is_some();
@@ -693,6 +738,16 @@ fn check_binary(ctx: &mut Ctx, w: &mut Witnesses) {
                     ctx.case("binary", &key, "pass", info);
                 } else {
                     ctx.case("binary", &key, "viol", json!({"class": "C17/read-error-unwrap-panic", "what": "a directory as input must end with one error line and no crash", "case": info}));
+                }
+            }
+            "usage-or-clean" => {
+                let rejected = !o.timed_out && !o.crashed() && o.status.map(|s| s != 0).unwrap_or(false) && !o.stderr.trim().is_empty() && o.stdout.is_empty();
+                let ran = !o.timed_out && !o.crashed() && o.status == Some(0) && !o.stdout.is_empty() && !String::from_utf8_lossy(&o.stdout).lines().any(|l| l.starts_with("Error:"));
+                if rejected || ran {
+                    ctx.count(if rejected { "format-spec:rejected-at-start" } else { "format-spec:accepted-and-printed" });
+                    ctx.case("binary", &key, "pass", info);
+                } else {
+                    ctx.case("binary", &key, "viol", json!({"class": "C17/format-spec-accepted-then-crash", "what": "a format string must either be rejected at start-up (message, non-zero exit, no output) or be applied to every row: crash, `Error:` on stdout or no output at all", "case": info}));
                 }
             }
             _ => {
